@@ -1,6 +1,7 @@
 package s3afero
 
 import (
+	"crypto/md5"
 	"errors"
 	"fmt"
 	"io"
@@ -165,4 +166,36 @@ func keyConflict(fs afero.Fs, objectPath string) (bool, error) {
 
 func keyConflictError(key string) error {
 	return gofakes3.ErrorInvalidArgument("key", key, "this backend stores keys as file paths: a key cannot be both an object and a prefix of other objects")
+}
+
+// writeObjectFile streams input into the file at objectFilePath without ever
+// exposing a partial or rejected upload: the body goes to a temporary file in
+// the same directory, which replaces the destination only once all of it has
+// arrived and its length equals the declared size. A failed upload leaves the
+// previous object (or no object) behind.
+func writeObjectFile(fs afero.Fs, objectFilePath string, input io.Reader, size int64) (hash []byte, err error) {
+	tmp, err := afero.TempFile(fs, filepath.Dir(objectFilePath), ".gofakes3-upload-")
+	if err != nil {
+		return nil, err
+	}
+	tmpName := tmp.Name()
+
+	hasher := md5.New()
+	n, err := io.Copy(io.MultiWriter(tmp, hasher), input)
+	// Close before the rename and before the caller stats the file: some
+	// filesystems don't update the mtime until after close.
+	if cerr := tmp.Close(); err == nil {
+		err = cerr
+	}
+	if err == nil && n != size {
+		err = gofakes3.ErrIncompleteBody
+	}
+	if err == nil {
+		err = fs.Rename(tmpName, objectFilePath)
+	}
+	if err != nil {
+		fs.Remove(tmpName)
+		return nil, err
+	}
+	return hasher.Sum(nil), nil
 }
